@@ -18,7 +18,7 @@ RULE = ("kernel cases = (loop nest of depth 1-3: per level a source {fiber, a&b,
         "pre-populated outputs, declared trace set, thresholds subset of {2,3,5,1000}, default 0 or 7); small scope: "
         "every depth-1 form x all pairs of leaf fibers over 2 (quick) / 3 (thorough) coordinates x {absent, explicit "
         "default, value} x 4 trace sets, depth-2/3 templates (SpMV, reductions, Gustavson, inner/outer product, "
-        "copy) on seeded random trees; api cases = seeded random Metrics call sequences (nest-shaped with "
+        "copy, dense iterShapeRef() outer loops) on seeded random trees, populate destination ranks in format C or U; api cases = seeded random Metrics call sequences (nest-shaped with "
         "perturbations: late/duplicate declarations, double matches, uses on unregistered ranks, interleaved "
         "consumeTrace). non-trivial = a traced file with >= 2 data rows (kernel) / a flush or a consume happened (api)")
 
@@ -178,6 +178,10 @@ TEMPLATES = {
     "outer": lambda: [_level("K", _src("and", 0, 1)), _level("M", _src("fiber", 0), True), _level("N", _src("fiber", 1), True)],
     "stage0": lambda: [_level("M", _src("fiber", 0), True), _level("K", _src("and", 0, 1), True), _level("N", _src("fiber", 1), True)],
     "traverse3": lambda: [_level("M", _src("fiber", 0)), _level("K", _src("fiber", 0)), _level("N", _src("fiber", 0))],
+    "dense-outer": lambda: [_level("M", _src("dense", 0, shape=0)), _level("K", _src("fiber", 0))],
+    "dense-outer-and": lambda: [_level("M", _src("dense", 0, shape=0)), _level("K", _src("and", 0, 1))],
+    "dense-outer-pop": lambda: [_level("M", _src("dense", 0, shape=0)), _level("K", _src("fiber", 0), True)],
+    "dense3": lambda: [_level("M", _src("dense", 0, shape=0)), _level("K", _src("dense", 0, shape=0)), _level("N", _src("fiber", 0))],
     "lf3": lambda: [_level("M", _src("fiber", 0)), _level("K", _src("lf", 0, 1)), _level("N", _src("fiber", 1), True)],
 }
 
@@ -194,8 +198,15 @@ def _rand_case(rng, levels, n, dflt, tmode=None, zmode=None, prematch=True, thre
         else:
             trees.append(H.gen_tree(rng, d, n, pool, dflt, p_absent=rng.choice([0.2, 0.4, 0.6])))
     ops = _mk_ops(levels, trees)
+    for lv in levels:
+        if lv["src"]["kind"] == "dense":
+            lv["src"]["shape"] = n            # dense Ref loops walk the declared shape of the operand's rank
+            ops[lv["src"]["x"]]["shape"] = [n] * ops[lv["src"]["x"]]["d"]
     zl = z_levels(levels)
     z = None
+    for i in zl:
+        if rng.random() < 0.3:
+            levels[i]["zU"] = True           # destination rank kept in format "U": never an inserting populate
     if zl:
         dz = len(zl)
         # declared shape: beyond every coordinate the nest can offer (projection offsets included)
@@ -243,6 +254,12 @@ def gen_kernels(seed, tier):
                         z = {"d": 1, "tree": zt, "shape": [n + 4]} if pop else None
                         yield finish_case(levels, ops, z, pick_traced(levels, tmode),
                                           [2, 3, 1000] if k % 2 else [2, 5, 1000], 0, prematch=True)
+                    if pop and zt:
+                        # the same populate into a destination rank of format "U" (never inserting)
+                        levels = mk()
+                        levels[0]["zU"] = True
+                        yield finish_case(levels, _mk_ops(levels, [a, b]), {"d": 1, "tree": zt, "shape": [n + 4]},
+                                          pick_traced(levels, "all"), [2, 1000], 0, prematch=True)
     # ---- the late-match composite projection (expected to assert when its trace is declared)
     for a in fibs[:6]:
         levels = DEPTH1_FORMS[8][1]()
@@ -286,6 +303,8 @@ def random_levels(rng):
             lo = rng.choice([None, 1, 2])
             src = _src("proj", xs[0], srcRank="QP"[xs[0]] + str(i), off=rng.choice([0, 1, 2]),
                        lo=lo, hi=(None if lo is None else lo + rng.choice([1, 2, 4])))
+        elif i + 1 < D and not zpart[i] and rng.random() < 0.25:
+            src = _src("dense", xs[0], shape=0)
         else:
             src = _src("fiber", xs[0])
         levels.append(_level(ranks[i], src, zpart[i]))
@@ -450,9 +469,9 @@ class _DestSpy:
         self.cur[rank] = (fib, [])
         return (list(fib.coords), self.cur[rank][1])
 
-    def end(self, rank, before, recs, first_coord):
+    def end(self, rank, before, recs, first_coord, compressed=True):
         self.cur.pop(rank, None)
-        inserting = bool(before) and first_coord is not None and first_coord < before[-1]
+        inserting = compressed and bool(before) and first_coord is not None and first_coord < before[-1]
         if inserting:
             return
         for ty, coord, pos, coords in recs:
@@ -471,6 +490,8 @@ def _exec_nest(ft, levels, ops, z, i, spy=None):
         expr = ops[s["x"]] & ops[s["y"]]
     elif kind == "lf":
         expr = ft.Fiber.intersection(ops[s["x"]], ops[s["y"]], style="leader-follower")
+    elif kind == "dense":
+        expr = ops[s["x"]].iterShapeRef()
     else:
         off = s["off"]
         interval = None if s["lo"] is None else (s["lo"], s["hi"])
@@ -503,7 +524,7 @@ def _exec_nest(ft, levels, ops, z, i, spy=None):
         else:
             _exec_nest(ft, levels, ops2, z2, i + 1, spy)
     if watch is not None:
-        spy.end(lv["rank"], watch[0], watch[1], first)
+        spy.end(lv["rank"], watch[0], watch[1], first, not lv.get("zU"))
 
 
 def _run_kernel_once(ft, case, ncu, consumable):
@@ -514,11 +535,15 @@ def _run_kernel_once(ft, case, ncu, consumable):
         if o["d"] == 0:
             ops.append(None)
         else:
-            ops.append(_build_tensor(ft, op_rank_ids(levels, x), o["tree"], dflt).getRoot())
+            ops.append(_build_tensor(ft, op_rank_ids(levels, x), o["tree"], dflt, shape=o.get("shape")).getRoot())
     z = None
     if case["z"] is not None:
         zr = [levels[i]["rank"] for i in z_levels(levels)]
-        z = _build_tensor(ft, zr, case["z"]["tree"], dflt, shape=case["z"]["shape"]).getRoot()
+        zt = _build_tensor(ft, zr, case["z"]["tree"], dflt, shape=case["z"]["shape"])
+        for i in z_levels(levels):
+            if levels[i].get("zU"):
+                zt.setFormat(levels[i]["rank"], "U")
+        z = zt.getRoot()
     d = scratch()
     prefix = os.path.join(d, "t")
     for f in glob.glob(prefix + "-*.csv"):
@@ -750,7 +775,7 @@ def extra_evidence(results):
             dest += c.get("impl", {}).get("dest_rows_checked", 0)
             depth[len(c["levels"])] = depth.get(len(c["levels"]), 0) + 1
             for lv in c["levels"]:
-                k = ("pop+" if lv["pop"] else "") + lv["src"]["kind"]
+                k = (("popU+" if lv.get("zU") else "pop+") if lv["pop"] else "") + lv["src"]["kind"]
                 forms[k] = forms.get(k, 0) + 1
     return {"case_families": fam, "nest_depths": depth, "level_forms": forms,
             "destination_rows_checked_against_live_fiber": dest}
